@@ -34,6 +34,9 @@ pub enum Item {
     /// an instruction the assembler must refuse; `needle` = the offending token as it appears in the line
     /// ("" = column unknown).  The diagnostic must cite this line.
     Bad(Ins, String),
+    /// n lines `nop`, one instruction each (for programs of tens of thousands of instructions; kept as one item so that
+    /// the event and the model stay small)
+    Fill(usize),
 }
 
 #[derive(Clone, Debug)]
@@ -124,6 +127,8 @@ pub struct Rendered {
 }
 
 struct Renderer<'a> {
+    /// every definition of a label / procedure name: name -> (line, text of the line, column of the name)
+    defs: Vec<(String, usize, String, i64)>,
     offend: Vec<Value>,
     lines: Vec<String>,
     lay: &'a Layout,
@@ -159,7 +164,9 @@ impl<'a> Renderer<'a> {
             // blanks, tabs and (one line in five) Unicode white space, which takes more than one byte per character
             text.push_str(*self.rng.pick(&["  ", "\t", "    ", "  ", "\t", "    ", "  ", "\t", "\u{a0}\u{a0}\u{a0}\u{a0}", "\u{3000}", "\u{2003} \u{a0}"]));
         }
+        let mut pending_def: Option<(String, i64)> = None;
         if let Some(l) = self.pending_label.take() {
+            pending_def = Some((l.clone(), text.len() as i64));
             text.push_str(&l);
             text.push_str(": ");
         }
@@ -173,12 +180,16 @@ impl<'a> Renderer<'a> {
             full.push_str("; trailing comment");
         }
         self.lines.push(full);
+        if let Some((l, col)) = pending_def {
+            self.defs.push((l, self.lines.len(), String::new(), col));
+        }
         (self.lines.len(), text)
     }
     fn flush_label(&mut self) {
         if let Some(l) = self.pending_label.take() {
             self.filler();
             self.lines.push(format!("{}:", l));
+            self.defs.push((l, self.lines.len(), String::new(), 0));
         }
     }
     fn items(&mut self, items: &[Item], in_proc: bool) -> Vec<Value> {
@@ -194,6 +205,7 @@ impl<'a> Renderer<'a> {
                     } else {
                         self.filler();
                         self.lines.push(format!("{}:", name));
+                        self.defs.push((name.clone(), self.lines.len(), String::new(), 0));
                     }
                 }
                 Item::Ins(ins) => {
@@ -219,6 +231,14 @@ impl<'a> Renderer<'a> {
                         out.push(json!({"k":"ins","ast":ins.to_json(),"line":line,"text":t,"textb":t.as_bytes()}));
                     }
                 }
+                Item::Fill(n) => {
+                    self.flush_label();
+                    let first = self.lines.len() + 1;
+                    for _ in 0..*n {
+                        self.lines.push("nop".to_string());
+                    }
+                    out.push(json!({"k":"fill","n":n,"line":first,"text":"nop","textb":"nop".as_bytes(),"ast":{"cls":"ctl","op":"nop"}}));
+                }
                 Item::Raw(text) => {
                     self.flush_label();
                     self.filler();
@@ -230,6 +250,7 @@ impl<'a> Renderer<'a> {
                     let kw = if self.lay.vary_spelling && self.rng.chance(1, 2) { "DEF" } else { "def" };
                     self.filler();
                     self.lines.push(format!("{} {} {{", kw, name));
+                    self.defs.push((format!("procedure {}", name), self.lines.len(), String::new(), 0));
                     let mut b = self.items(body, true);
                     self.flush_label();
                     let last_is_ins = matches!(b.last(), Some(v) if v["k"] == "ins" && v["line"] == self.lines.len());
@@ -292,17 +313,37 @@ fn data_json(d: &DataItem) -> Value {
 }
 
 pub fn render(p: &Program, lay: &Layout, rng: &mut Rng, n: usize) -> Rendered {
-    let mut r = Renderer { offend: Vec::new(), lines: Vec::new(), lay, rng, pending_label: None };
+    let mut r = Renderer { defs: Vec::new(), offend: Vec::new(), lines: Vec::new(), lay, rng, pending_label: None };
     let mut data = Vec::new();
     for d in &p.data {
         r.filler();
         let sp = r.sp();
         let s = data_src(d, &sp);
-        r.lines.push(s);
+        if let DataItem::Def { label: Some(name), .. } = d {
+            // one data label in three stands on a line of its own above its directive
+            if r.lay.indent && r.rng.chance(1, 3) {
+                r.lines.push(format!("{}:", name));
+                r.defs.push((name.clone(), r.lines.len(), format!("{}:", name), 0));
+                r.lines.push(s[name.len() + 2..].to_string());
+            } else {
+                r.lines.push(s.clone());
+                r.defs.push((name.clone(), r.lines.len(), s, 0));
+            }
+        } else {
+            r.lines.push(s);
+        }
         data.push(data_json(d));
     }
     let items = r.items(&p.items, false);
     r.flush_label();
+    // a name defined more than once: the diagnostic may cite any of its definitions
+    let names: Vec<String> = r.defs.iter().map(|d| d.0.clone()).collect();
+    for (name, line, _, col) in r.defs.clone() {
+        if names.iter().filter(|n| **n == name).count() > 1 {
+            let text = r.lines[line - 1].split(';').next().unwrap().to_string();
+            r.offend.push(json!({"line":line,"text":text,"col":col}));
+        }
+    }
     let mut source = r.lines.join("\n");
     if lay.trailing_newline {
         source.push('\n');
